@@ -22,6 +22,6 @@ git --no-pager diff --stat | tail -1
 cd /verif
 IFS=, ; for c in $id; do
   VERIF_REPO=$W VERIF_OUT=$O timeout 7200 ./check $c --tier $tier > $O.log 2>&1; rc=$?
-  echo "check $c rc=$rc"; grep -E "VIOLATION|key=|msg=|HARNESS|KNOWN" $O.log | head -${MUTLINES:-8}
+  echo "check $c rc=$rc"; grep -a -E "VIOLATION|key=|msg=|HARNESS|KNOWN" $O.log | head -${MUTLINES:-8}
 done
 rm -f $O.log
